@@ -66,9 +66,7 @@ def strip_meta(cfg):
     Returns:
         A copy of the configuration object excluding all metadata keys.
     """
-    if cfg:
-        cfg = recreate_branches(cfg, skip_keys=meta_keys)
-    return cfg
+    return recreate_branches(cfg, skip_keys=meta_keys)
 
 
 def recreate_branches(data, skip_keys=None):
